@@ -371,15 +371,21 @@ impl ObjectStream {
         if index >= self.offsets.len() {
             err!(PdfError::ObjStmOutOfBounds {index, max: self.offsets.len()});
         }
-        let start = self.inner.info.first + self.offsets[index];
+        // /First and the offsets of the header are numbers of the file: their sum must not overflow
+        // (whether the range lies inside the data is checked by the caller)
+        let first = self.inner.info.first;
+        let start = first.checked_add(self.offsets[index]);
         let data = self.inner.data(resolve)?;
         let end = if index == self.offsets.len() - 1 {
-            data.len()
+            Some(data.len())
         } else {
-            self.inner.info.first + self.offsets[index + 1]
+            first.checked_add(self.offsets[index + 1])
         };
 
-        Ok((data, start..end))
+        match (start, end) {
+            (Some(start), Some(end)) => Ok((data, start..end)),
+            _ => bail!("object stream member {} has an offset beyond the addressable range", index)
+        }
     }
     /// Returns the number of contained objects
     pub fn n_objects(&self) -> usize {
